@@ -12,7 +12,7 @@ CHECKS = {
          "Bounded-exhaustive pairs (quick) / triples (thorough) over a 66-call core alphabet plus random depth-40 walks over a 170-call alphabet, on plus/non-plus chips and three SPI flavours; after every call the whole register file, CE, exception class, sanitizer log and (on half the sequences) every getter are compared with the reference model."),
  "C05": ("unique-id message histories over a deterministic multi-MCU scheduler; offline exactly-once/no-misdelivery checker over all nodes' application logs + air log", "4/C05",
          "Sampled tree topologies (2..12 real driver instances, one thread per MCU, seeded cost profiles and jitter) exchanging one message at a time; judged at virtual-time quiescence. Ideal medium for liveness clauses, hostile medium for no-corruption/no-misdelivery only. Known protocol-level finding (fragmented multi-hop) is reported as KNOWN-FINDING by mechanism."),
- "C06": ("unique-id fragment histories checked by set membership/counting against the sent messages (fragments from an independent TMRh20-numbering fragmenter)", "4/C06",
+ "C06": ("unique-id fragment histories checked by set membership/counting against the sent messages (fragments from an independent TMRh20-numbering fragmenter and, in the lib-sender family, from the library's own sender via the air log)", "4/C06",
          "Exhaustive per-fragment {drop, once, twice} patterns with adjacent transpositions and every dequeue point for 2..4 fragments, all interleavings of two senders' streams with equal/different frame ids, plus random stray/restart histories up to 7 fragments and 3 senders; tail-replay histories for message types that coincide with fragment counters and queue-pressure histories (finished message refused or only just fitting, late repeats after the application read); delivered through the radio RX FIFO + update() and through FrameQueueFrag.enqueue directly."),
  "C08": ("reference automaton at every call return + CONFIG/CE trace monitor + real probe transmissions from a third simulated radio", "4/C08",
          "Breadth-first exploration with state hashing (radio registers x driver object state) to depth 4 (quick) / 6 (thorough) over a 19-call alphabet x address widths 3..5, plus random depth-30 walks; the last call of every executed path is followed by probe packets / a send() to a listening peer."),
@@ -71,7 +71,7 @@ def main():
                 "evidence_file": "evidence/%s.json" % pid,
                 "replay_cmd_template": "./check %s --replay {path}" % pid,
                 "engine": "vsim+vmon",
-                "level_claimed": {"category": "exploration", "text": text + _addendum(pid), "design_ref": "DESIGN.md section " + ref + " and 10.6-10.10"},
+                "level_claimed": {"category": "exploration", "text": text + _addendum(pid), "design_ref": "DESIGN.md section " + ref + " and 10.6-10.16"},
                 "level_note": "Trusted base: the simulated nRF24L01(+) model (assumptions A1-A25, DESIGN.md 2.1 and 10.2), the virtual clock/scheduler, the reference models under refmodels/, and CPython 3.12. Claims are 'held on the executions observed', never 'verified'.",
                 "technique": TECH + tech,
             })
